@@ -254,6 +254,39 @@ def mod_ok(t, classes, i=0):
     return ok, left, j
 
 
+def budget(t, classes, i=0):
+    """worst-case error (arc-seconds) of evaluating t with these leaf classes, by the recursion of
+    theorem eval_sound (errB): an HP-class node rounds to the printed resolution (0.5e-9", plus the
+    1.1e-13 spacing of doubles from 512 deg), scalings scale what is below them; every node also
+    gets binary64 noise (3e-10" above 256 deg, 1e-10" below).
+    returns (error, value, leftmost class, next leaf index)"""
+    op = t[0]
+    if op == 'L':
+        c = classes[i]
+        return (5e-10 if c == 'HP' else 0.0) + 1e-10, t[1], c, i + 1
+    subs = [x for x in t[1:] if isinstance(x, tuple)]
+    e1, v1, left, j = budget(subs[0], classes, i)
+    if op in ('add', 'sub'):
+        e2, v2, _, j = budget(subs[1], classes, j)
+        v = v1 + v2 if op == 'add' else v1 - v2
+        e = e1 + e2
+    elif op == 'neg':
+        v, e = -v1, e1
+    elif op == 'abs':
+        v, e = abs(v1), e1
+    elif op in ('mul', 'rmul'):
+        v, e = v1 * t[1], abs(t[1]) * e1
+    elif op == 'div':
+        v, e = v1 / t[1], e1 / abs(t[1])
+    else:
+        v, e = v1 % t[1], e1
+    r = 0.0
+    if left == 'HP' and op not in ('neg', 'abs'):
+        r = 5e-10 if abs(v) < 512 else 1.2e-9
+    noise = 3e-10 if abs(v) >= 256 else 1e-10
+    return e + r + noise, v, left, j
+
+
 def expr_worker(job):
     k, n = job
     rng = random.Random(f'{seed()}:C12:expr:{k}')
@@ -271,6 +304,11 @@ def expr_worker(job):
             classes = [rng.choice(OBJ) for _ in range(nl)]
             ok, left, _j = mod_ok(t, classes)
             if not ok:
+                continue
+            if budget(t, classes)[0] > 1e-8:
+                # the 1e-8" clause cannot be expected of this program: HP roundings amplified by
+                # its multipliers exceed the tolerance by themselves (see eval_sound / errB)
+                acc.count('expr:skipped-rounding-budget')
                 continue
             it = iter(classes)
             acc.count('expr')
